@@ -42,8 +42,32 @@
         fair share, allocation updated by the model's own commits), serves
         exactly the jobs the real action served, on the same nodes.
     - [KSig]: function-level correspondence for
-      MinimalJobRepresentatives.IsEasierToSchedule / UpdateRepresentative. *)
-From KaiV Require Export Run.Cycle Model.Progress Model.Signatures Model.ProgressTree.
+      MinimalJobRepresentatives.IsEasierToSchedule / UpdateRepresentative.
+    - [KFault]: ONLY the allocate action on an in-class cluster (identical
+      non-shared pods per job) while the session's cache refuses some Bind
+      calls (none / the k-th call of the action / every call for a pod of one
+      job).  Recorded: what KAlloc records, every Bind / TaskPipelined call in
+      order WITH ITS OUTCOME, the final session status of every pod that was
+      pending, and per attempt the operations a refused Bind cut off (pods that
+      keep their placement in the session without a Cache call; they are listed
+      in [at_placed] next to the accepted calls: they sit on the final books).
+        [model_agrees]: the faulty loop of Model/ProgressFaults.v (a refused
+        Bind un-allocates that pod, drops the remaining operations of the
+        statement, the job is not pushed back, the loop goes on), run with the
+        real pop / node visiting order and the failure oracle read off the
+        recorded outcomes, issues exactly the recorded Bind calls in the recorded
+        order with the recorded outcomes, the same nominations, ends with the
+        same placements in the session, the same final status of every pod,
+        an empty queue, and its calls replay to the real final node books.
+        [monitor_ok]: the work-conservation clause of
+        C05_every_pending_workload_accounted_under_bind_faults on the real
+        dumps: a ready job with pending pods after the action whose unit fits
+        the real final books and passes its queues' gates and none of whose
+        Bind calls was refused is a violation.
+        flag 5: a job that is refused on the session's books but would fit on
+        the capacity the API server knows (the books plus what the dropped
+        operations hold, which no Bind was issued for). *)
+From KaiV Require Export Run.Cycle Model.Progress Model.Signatures Model.ProgressTree Model.ProgressFaults.
 From KaiV Require Model.Capacity.
 From Coq Require Import QArith.
 Open Scope Z_scope.
@@ -303,6 +327,97 @@ Definition starved (k : acase) (r : positive * list xtask) : bool :=
 
 Definition conservation_ok (k : acase) : bool := forallb (fun r => negb (starved k r)) (a_remaining k).
 
+(** * KFault *)
+
+Record bcall := mkBC { bc_job : positive; bc_task : positive; bc_node : positive; bc_piped : bool; bc_ok : bool }.
+Record fcase := mkFC {
+  fc_a : acase;                           (* [at_placed]: accepted calls + operations cut off by a refused Bind *)
+  fc_calls : list bcall;                  (* every Bind / TaskPipelined call of the action, in order, with outcome *)
+  fc_status : list (positive * status);   (* final session status of the pods that were Pending *)
+}.
+
+Definition fc_binds (k : fcase) : list bcall := filter (fun c => negb (bc_piped c)) (fc_calls k).
+(** the failure oracle as the run shows it: was the i-th Cache.Bind of the action refused *)
+Definition fc_oracle (k : fcase) : boracle := fun i => negb (bc_ok (nth i (fc_binds k) (mkBC 1 1 1 false true))).
+(** one of the job's Bind calls was refused *)
+Definition fc_hit (k : fcase) (jid : positive) : bool :=
+  existsb (fun c => Pos.eqb (bc_job c) jid && negb (bc_ok c)) (fc_calls k).
+
+Definition fault_run (k : fcase) : fstate :=
+  let a := fc_a k in
+  allocate_action_f o_pred (o_tgate a) (o_gate a) (o_nord a) (o_gsel a) (o_shouldpipe a) true (fc_oracle k)
+                    (st0_of a) (map at_job (a_attempts a)).
+
+Definition acall_eqb (c : acall) (b : bcall) : bool :=
+  match c with
+  | ABind j t n => negb (bc_piped b) && bc_ok b && Pos.eqb j (bc_job b) && Pos.eqb t (bc_task b) && Pos.eqb n (bc_node b)
+  | ABindRefused j t n => negb (bc_piped b) && negb (bc_ok b) && Pos.eqb j (bc_job b) && Pos.eqb t (bc_task b) && Pos.eqb n (bc_node b)
+  | APipe j t n => bc_piped b && Pos.eqb j (bc_job b) && Pos.eqb t (bc_task b) && Pos.eqb n (bc_node b)
+  end.
+Definition is_pipe (c : acall) : bool := match c with APipe _ _ _ => true | _ => false end.
+
+(** the status the model's run leaves a pod with: Binding after an accepted Bind
+    (Session.BindPod), Allocated / Pipelined while it holds a placement, else Pending *)
+Definition model_status (fs : fstate) (t : positive) : status :=
+  if existsb (fun c => match c with ABind _ t' _ => Pos.eqb t t' | _ => false end) (fs_calls fs) then Binding
+  else match find (fun pl => Pos.eqb (t_id (pl_task pl)) t) (ls_hist (fs_ls fs)) with
+       | Some pl => if pl_piped pl then Pipelined else Allocated
+       | None => Pending
+       end.
+
+Definition fault_loop_agrees (k : fcase) : bool :=
+  let a := fc_a k in
+  let fs := fault_run k in
+  let st := fs_ls fs in
+  exhausted st
+  (* the Bind calls: the same pods on the same nodes in the same order with the same outcomes *)
+  && list_eqb2 acall_eqb (filter (fun c => negb (is_pipe c)) (fs_calls fs)) (fc_binds k)
+  (* the nominations (the order inside a converted statement is that of its operation list) *)
+  && Nat.eqb (List.length (filter is_pipe (fs_calls fs))) (List.length (filter bc_piped (fc_calls k)))
+  && forallb (fun c => existsb (acall_eqb c) (fc_calls k)) (filter is_pipe (fs_calls fs))
+  (* the placements that hold in the session afterwards: accepted calls and dropped operations *)
+  && Nat.eqb (List.length (ls_hist st)) (List.length (all_placed a))
+  && forallb (fun pl => existsb (placement_eqb pl) (all_placed a)) (ls_hist st)
+  (* every job left with pods to allocate is out of the model's loop *)
+  && forallb (fun r => match find_job (fst r) (ls_jobs st) with
+                       | Some j => js_failed j
+                       | None => false
+                       end) (a_remaining a)
+  (* the final status of every pod that was pending *)
+  && forallb (fun ps => status_eqb (model_status fs (fst ps)) (snd ps)) (fc_status k).
+
+Definition fault_agrees (k : fcase) : bool := books_agree (fc_a k) && fault_loop_agrees k.
+
+(** the work-conservation clause under faults on the real dumps *)
+Definition fault_conservation_ok (k : fcase) : bool :=
+  forallb (fun r => negb (starved (fc_a k) r) || fc_hit k (fst r)) (a_remaining (fc_a k)).
+
+(** the operations a refused Bind cut off: placements without an accepted call *)
+Definition fc_dropped (k : fcase) : list placed :=
+  filter (fun p => negb (existsb (fun c => Pos.eqb (bc_task c) (pc_task p) && bc_ok c) (fc_calls k))) (all_placed (fc_a k)).
+Definition req_of (a : acase) (id : positive) : res :=
+  match find_x (all_xtasks a) id with Some x => t_req (x_task x) | None => rzero end.
+(** what can be bound on a node as the API server knows it: the books plus what the dropped operations hold *)
+Definition avail_truth (k : fcase) (ko : positive * obs) : res :=
+  fold_left (fun acc p => if Pos.eqb (pc_node p) (fst ko) && negb (pc_piped p) then radd acc (req_of (fc_a k) (pc_task p)) else acc)
+            (fc_dropped k) (avail (snd ko)).
+Definition truth_hist (k : fcase) : hist :=
+  filter (fun pl => negb (existsb (fun p => Pos.eqb (pc_task p) (t_id (pl_task pl))) (fc_dropped k))) (final_hist (fc_a k)).
+Definition starved_at_api_server (k : fcase) (r : positive * list xtask) : bool :=
+  let a := fc_a k in
+  let ts := snd r in
+  regular_unit ts && same_req ts
+  && match ts with
+     | [] => false
+     | x0 :: _ =>
+         let n := List.length ts in
+         Nat.leb n (fold_right (fun ko acc => (fit_count n (avail_truth k ko) (t_req (x_task x0)) + acc)%nat) O (a_final a))
+     end
+  && job_gate a (qs_of_hist a (truth_hist k)) (fst r) (map x_task ts).
+Definition fault_flags (k : fcase) : list nat :=
+  if existsb (fun r => negb (fc_hit k (fst r)) && negb (starved (fc_a k) r) && starved_at_api_server k r) (a_remaining (fc_a k))
+  then [5%nat] else [].
+
 (** * KProg *)
 
 (* [pqueue] (Model/ProgressTree.v): id, parent, deserved (-1 = unlimited) / allocated / allocated
@@ -512,22 +627,28 @@ Fixpoint sig_agrees (m : reps) (ops : list sigop) : bool :=
   end.
 
 (** * entry points *)
-Inductive c05case := KAlloc (a : acase) | KProg (p : pcase) | KSig (ops : list sigop).
+Inductive c05case := KAlloc (a : acase) | KProg (p : pcase) | KSig (ops : list sigop) | KFault (f : fcase).
 
 Definition model_agrees (c : c05case) : bool :=
   match c with
   | KAlloc a => alloc_agrees a
   | KProg p => prog_agrees p
   | KSig ops => sig_agrees [] ops
+  | KFault f => fault_agrees f
   end.
 Definition monitor_ok (c : c05case) : bool :=
   match c with
   | KAlloc a => conservation_ok a
   | KProg p => progress_ok p
   | KSig _ => true
+  | KFault f => fault_conservation_ok f
   end.
 Definition run_mismatches (cs : list (nat * c05case)) : list nat := failing (fun k => negb (model_agrees k)) cs.
 Definition run_monitor (cs : list (nat * c05case)) : list nat := failing (fun k => negb (monitor_ok k)) cs.
 Definition run_flags (cs : list (nat * c05case)) : list (nat * list nat) :=
   filter (fun p => negb (Nat.eqb (List.length (snd p)) 0))
-         (map (fun c => (fst c, match snd c with KAlloc a => cycle_flags (as_ccase a) | _ => [] end)) cs).
+         (map (fun c => (fst c, match snd c with
+                             | KAlloc a => cycle_flags (as_ccase a)
+                             | KFault f => cycle_flags (as_ccase (fc_a f)) ++ fault_flags f
+                             | _ => []
+                             end)) cs).
